@@ -150,6 +150,15 @@ def _cases(ctx):
             for s in specs:
                 for e in (ends if (ctx.quick is False or day != base) else ends[:3]):
                     q(day, None, [[[head, s, e]]], None, None)
+    # C2. the same relative spec compiled on two different days in ONE process:
+    # nothing resolved against an earlier "today" may be carried over
+    edge = [d.isoformat() for d in EDGE_DAYS]
+    for s in specs:
+        if s[0] != "rel":
+            continue
+        for d1, d2 in ((base, edge[0]), (edge[1 % len(edge)], base), (edge[-1], edge[0])):
+            cases.append(["seq", [d1, d2], [[["create", s, None]]]])
+            cases.append(["seq", [d1, d2], [[["modify", ["short", "240131"], s]]]])
     # D. ordering / grouping lists, clause order, omitted clauses
     orders = [None] + [list(o) for n in (1, 2) for o in it.product(ORDER_KEYS, repeat=n)]
     orders.append(list(ORDER_KEYS))
@@ -189,6 +198,17 @@ def _run_case(ctx, case) -> F.Outcome:
     out = F.Outcome()
     if case[0] == "process":
         return _process_case(case[1])
+    if case[0] == "seq":
+        last = None
+        for n, d in enumerate(case[1]):
+            last = _run_case(ctx, ["q", d, None, case[2], None, None, False, False])
+            if not last.ok:
+                if n:
+                    last.sig = "after-compiling-on-another-day:" + last.sig
+                    last.detail["compiled_before_on"] = case[1][:n]
+                return last
+        last.nontrivial = H.digest(case)
+        return last
     _, day_s, select, where, order, group, gfirst, nl = case
     day = dt.date.fromisoformat(day_s)
     H.freeze(day)
@@ -279,6 +299,9 @@ def _process_case(qtext: str) -> F.Outcome:
 def _sample(case):
     if case[0] == "process":
         return {"cli_query": case[1]}
+    if case[0] == "seq":
+        return {"query": Q.render_query(None, _t(case[2]), None, None, False, False),
+                "compiled_in_one_process_on": case[1]}
     _, day_s, select, where, order, group, gfirst, nl = case
     return {"query": Q.render_query(select, where, order, group, gfirst, nl), "frozen_day": day_s}
 
